@@ -96,13 +96,26 @@ def frame_table(py):
             by_func.setdefault(s.func, []).append(s)
         tree = ast.parse(src)
         funcs = []
+        memo = {}
+
+        def note_memo(qual, node):
+            # a memoising decorator (functools.lru_cache / cache, anything called *cache* / *memo*) keeps state between calls
+            # without a single mutation site in the module: the frame is then a matter for the dynamic purity contract
+            for d in node.decorator_list:
+                txt = ast.unparse(d)
+                if "cache" in txt.lower() or "memo" in txt.lower():
+                    memo[qual] = frame.Site(qual, node.lineno, "@" + txt, frame.SHARED, "memoising decorator")
         for n in tree.body:
             if isinstance(n, ast.FunctionDef):
                 funcs.append(n.name)
+                note_memo(n.name, n)
             elif isinstance(n, ast.ClassDef):
                 funcs += ["%s.%s" % (n.name, x.name) for x in n.body if isinstance(x, ast.FunctionDef)]
+                for x in n.body:
+                    if isinstance(x, ast.FunctionDef):
+                        note_memo("%s.%s" % (n.name, x.name), x)
         for f in funcs:
-            ss = by_func.get(f, [])
+            ss = by_func.get(f, []) + ([memo[f]] if f in memo else [])
             # a private helper's writes to its own parameters / to self are judged where it is called (frame.analyze_module)
             bad = [s for s in ss if not s.ok() and not s.deferred]
             # state that outlives the call (module / class level objects, `global` rebinding): whether results still depend on
@@ -518,6 +531,21 @@ def _calls(py):
     add("transform.mat_en_from_ll", lambda: (T.mat_en_from_ll, (np.array([10.0, -50.0]), np.array([20.0, 170.0])), {}))
     add("transform.mat_from_rph", lambda: (T.mat_from_rph, (rph2(),), {}))
     add("transform.mat_to_rph", lambda: (T.mat_to_rph, (mats(),), {}))
+    # single-point forms of the leaf functions (the scalar path of a function is where a memo of the last / the recent
+    # arguments would sit: the caller owns what it gets back, call after call)
+    add("earth.principal_radii(single)", lambda: (E.principal_radii, (10.0, 500.0), {}))
+    add("earth.gravity_n(single)", lambda: (E.gravity_n, (-50.0, 500.0), {}))
+    add("earth.gravitation_ecef(single)", lambda: (E.gravitation_ecef, (lla1(),), {}))
+    add("earth.curvature_matrix(single)", lambda: (E.curvature_matrix, (-50.0, 500.0), {}))
+    add("earth.rate_n(single)", lambda: (E.rate_n, (-50.0,), {}))
+    add("transform.lla_to_ecef(single)", lambda: (T.lla_to_ecef, (lla1(),), {}))
+    add("transform.ecef_to_lla(single)", lambda: (T.ecef_to_lla, (T.lla_to_ecef(lla1()),), {}))
+    add("transform.lla_to_ned(single)", lambda: (T.lla_to_ned, (lla1() + np.array([1e-3, -2e-3, 7.0]), lla1()), {}))
+    add("transform.mat_en_from_ll(single)", lambda: (T.mat_en_from_ll, (-50.0, 170.0), {}))
+    add("transform.mat_from_rph(single)", lambda: (T.mat_from_rph, (rph2()[0],), {}))
+    add("transform.mat_from_rph(single list)", lambda: (T.mat_from_rph, ([1.0, -2.0, 40.0],), {}))
+    add("transform.mat_to_rph(single)", lambda: (T.mat_to_rph, (mats()[1],), {}))
+    add("util.skew_matrix(single)", lambda: (U.skew_matrix, (v3()[0],), {}))
     add("util.mm_prod", lambda: (U.mm_prod, (mats(), mats()), dict(at=True)))
     add("util.mm_prod_symmetric", lambda: (U.mm_prod_symmetric, (mats(), mats()), {}))
     add("util.mv_prod", lambda: (U.mv_prod, (mats(), v3()), dict(at=True)))
@@ -666,6 +694,14 @@ def _check_call(name, make):
             return dict(call=name, what="second call with equal inputs (and equal seeds) gives a different result")
         if _snap(r1) != s1:
             return dict(call=name, what="first result changed by the second call (aliased state)")
+        # the caller OWNS what a call returns: overwriting the returned arrays / tables in place must not reach into the
+        # library (a cache or a preallocated buffer handed out as the result)
+        if _scale_in_place(r1):
+            f3, args3, kw3 = make()
+            r3 = f3(*args3, **kw3)
+            if _snap(r3) != s1:
+                return dict(call=name, what="after the caller overwrote the FIRST result in place, a call with equal inputs gives a different result "
+                                            "(the function hands out an object it keeps: a cached or preallocated array)")
     except Exception as exc:
         return dict(call=name, what="raised %r" % (exc,))
     return None
